@@ -9,6 +9,8 @@ open on that transport are pairwise distinct and below 2^24, and the two
 peers agree on each channel's number pair."""
 from paramiko.ssh_exception import SSHException, ChannelException
 
+import paramiko
+
 from sim import ssh, core
 from sim.core import Violation
 from sim.net import Link
@@ -25,11 +27,22 @@ MAXID = 1 << 24
 
 
 def sim_kw(seed):
-    return {"max_steps": 4_000_000, "max_time": 3600.0}
+    kw = {"max_steps": 4_000_000, "max_time": 3600.0}
+    if seed % 2 == 0:
+        # statement- and bytecode-level pre-emption inside the id allocation and the two open paths
+        import paramiko.transport as t_mod
+        kw.update(trace_files={t_mod.__file__}, trace_opcodes=True,
+                  trace_funcs={"_next_channel", "open_channel", "_parse_channel_open", "_parse_channel_open_success",
+                               "_parse_channel_open_failure", "_unlink_channel"})
+    return kw
 
 
 def scenario(sim):
     sim.p_switch = (0.05, 0.3, 0.7)[sim.choose(3)]
+    if sim.trace_files:
+        sim.p_preempt = (0.0, 0.02, 0.1)[sim.choose(3)]
+        sim.p_preempt_store = (0.0, 0.05, 0.2)[sim.choose(3)]
+        sim.max_preempt = (3, 8, 40)[sim.choose(3)]
     lat = (0.0, 0.001, 0.02)[sim.choose(3)]
     link = Link(sim, latency=(lat, lat))
     p = ssh.Pair(sim, link=link)
@@ -101,13 +114,40 @@ def scenario(sim):
 
     acc = sim.spawn(acceptor, "acceptor")
     tasks = []
-    for rnd in range(1 + sim.choose(2)):
+    # in a third of the runs the peer (buggy or hostile) sends stray CHANNEL_OPEN_FAILURE messages naming channels
+    # that are open and confirmed; they must not free those ids for re-use
+    stray = sim.choose(3) == 0
+    desc["stray_open_failures"] = stray
+    for rnd in range(2 if stray else 1 + sim.choose(2)):
+        if rnd and stray:
+            ssh.quiesce(sim, [link], (), settle=0.2, limit=20)
+            strayed = {"c": [], "s": []}
+            for victim_side, sender in (("c", p.ts), ("s", p.tc)):
+                live_ids = [cid for cid, c in sorted(held[victim_side].items()) if not c.closed]
+                k0 = sim.choose(len(live_ids)) if live_ids else 0
+                for cid in live_ids[k0:k0 + 1 + sim.choose(4)]:
+                    strayed[victim_side].append(cid)
+                    m = paramiko.Message()
+                    m.add_byte(bytes([92]))
+                    m.add_int(cid)
+                    m.add_int(1)
+                    m.add_string("stray")
+                    m.add_string("en")
+                    sender.packetizer.send_message(m)
+                    sim.fault("stray_open_failure_for_open_channel")
         if rnd:
             # a whole trip round the 24-bit space later: the counter is back just below 2^24 while the
             # long-lived channels opened around the previous wrap are still open and must be stepped over
             ssh.quiesce(sim, [link], (), settle=0.2, limit=20)
             p.tc._channel_counter = (MAXID - 1 - sim.choose(6)) % MAXID
             p.ts._channel_counter = (MAXID - 1 - sim.choose(6)) % MAXID
+            if stray:
+                # ... and this trip arrives just below the ids named by the stray messages
+                ssh.quiesce(sim, [link], (), settle=0.2, limit=20)
+                if strayed["c"]:
+                    p.tc._channel_counter = (strayed["c"][0] - sim.choose(3)) % MAXID
+                if strayed["s"]:
+                    p.ts._channel_counter = (strayed["s"][0] - sim.choose(3)) % MAXID
             sim.probe("second_trip_round_the_id_space")
         batch = [sim.spawn(client_opener, "copen%d" % k, k) for k in range(2 + sim.choose(3))]
         batch += [sim.spawn(server_opener, "sopen%d" % k, k) for k in range(1 + sim.choose(2))]
